@@ -237,6 +237,48 @@ def _exec_chunk(chunk):
     return [execute(c) for c in chunk]
 
 
+def suite_traces():
+    """Run the repository's own test suite with the tracing hook on (ASPHALT_VERIF_HOOKS=trace) and turn what every context did
+    with its teardown callbacks into traces for the C01 monitor (one trace per context that ran at least one callback)."""
+    import os
+    import subprocess
+    import sys
+    wd = tlc.workdir()
+    out = wd / "suite.json"
+    env = dict(os.environ, ASPHALT_VERIF_HOOKS="trace", VERIF_TRACE_OUT=str(out), PYTHONPATH=f"{core.REPO}/src:{core.VERIF}", PYTHONDONTWRITEBYTECODE="1")
+    p = subprocess.run([sys.executable, "-m", "pytest", "-q", "-p", "no:cacheprovider", "-p", "harness.pytest_trace_plugin", "--timeout=300", "tests"],
+                       cwd="/repo", env=env, capture_output=True, text=True, timeout=1200)
+    if not out.exists():
+        raise core.MachineryError("the traced run of the repository's test suite produced no trace file:\n" + p.stdout[-800:] + p.stderr[-400:])
+    data = json.load(open(out))
+    traces = []
+    for t in data:
+        by_ctx = collections.OrderedDict()
+        for e in t["events"]:
+            by_ctx.setdefault(e["ctx"], []).append(e)
+        for n, (ctx, evs) in enumerate(by_ctx.items()):
+            if not any(e["ev"] == "cb.begin" for e in evs):
+                continue
+            ids = {}
+            first_arg = next((e["arg"] for e in evs if e["ev"] == "cb.begin" and e["hasarg"]), 0)
+            blk = "none" if not first_arg else f"x{first_arg}"
+            out_ev = []
+            begun = False
+            for e in evs:
+                cb = ids.setdefault(e["cb"], len(ids) + 1)
+                if e["ev"] == "reg":
+                    out_ev.append({"ev": "reg", "cb": cb, "pass": bool(e["pass"])})
+                elif e["ev"] == "cb.begin":
+                    if not begun:
+                        begun = True
+                        out_ev.append({"ev": "exit.begin", "how": "unknown", "exc": blk})
+                    out_ev.append({"ev": "cb.begin", "cb": cb, "hasarg": bool(e["hasarg"]), "arg": "none" if not e["arg"] else f"x{e['arg']}"})
+                else:
+                    out_ev.append({"ev": "cb.end", "cb": cb, "raised": bool(e["raised"]), "exc": f"cb{cb}" if e["raised"] else "none", "cancel": False})
+            traces.append({"id": f"suite:{t['test']}#{n}", "events": out_ev})
+    return traces
+
+
 def run(tier: str, seed: int) -> core.Report:
     rep = core.Report(PROP, tier, seed)
     cfg = open(tlc.SPECS / "MC_Teardown.cfg").read()
@@ -292,6 +334,17 @@ def run(tier: str, seed: int) -> core.Report:
     need = {"reg", "reg-during-teardown", "pass", "plain", "cb-raised", "grouped", "cancelled", "clean", "own-exception"}
     if not need <= set(hits) and not rep.violations:
         raise core.MachineryError(f"vacuous: monitor clauses never exercised: {sorted(need - set(hits))}")
+    # code -> spec on an independent workload: the repository's own tests, traced through the guarded hook
+    st = suite_traces()
+    sverd, d2, g2 = core.validate_traces("Trace_C01", st)
+    rep.states += d2
+    rep.transitions += max(d2, g2)
+    rep.traces_validated += len(st)
+    rep.extra["repository_test_suite"] = {"contexts_with_teardown_callbacks_traced": len(st), "rejected": sum(1 for v in sverd.values() if not v["ok"])}
+    for t in st:
+        v = sverd[t["id"]]
+        if not v["ok"]:
+            rep.violations.append(core.Violation(PROP, v["why"], f"C01:{v['why']}", {"suite_test": t["id"]}, {"events": t["events"][:50], "step": v["step"]}))
     rep.distinct_nontrivial = len(nontrivial)
     rep.rule = (f"{len(programs)} programs enumerated by TLC: all sequences of <= 2 callbacks over kind {{ok, Exception, BaseException}} x sync/async x "
                 "pass_exception x route {add_teardown_callback, add_resource(1 type), add_resource(2 types), @context_teardown} x registers-another-during-"
@@ -300,13 +353,18 @@ def run(tier: str, seed: int) -> core.Report:
                 "non-trivial = at least two callbacks; distinct by program")
     rep.extra.update({"programs": len(programs), "monitor_hits": dict(hits), "traces_whose_clause_hits_differ_from_the_specification (drift)": drift})
     rep.samples = [programs[len(programs) // 3]["prog"], programs[-1]["prog"]]
-    rep.assumptions = ["async callbacks of the harness park at a gate; a cancelled async callback re-raises the backend's cancellation exception",
+    rep.assumptions = ["the traced run of the repository's tests observes registration, start and completion of callbacks through the guarded hook (ASPHALT_VERIF_HOOKS=trace); how a block ended is not traced there",
+                       "async callbacks of the harness park at a gate; a cancelled async callback re-raises the backend's cancellation exception",
                        "cancellation exceptions are exempt from the grouped clause (trio collapses all-cancelled groups); member order inside the group is not checked",
                        "callbacks that swallow cancellation are not generated"]
     return rep
 
 
 def replay(scenario):
+    if "suite_test" in scenario:
+        st = [t for t in suite_traces() if t["id"] == scenario["suite_test"]]
+        verd, _, _ = core.validate_traces("Trace_C01", st)
+        return [core.Violation(PROP, v["why"], f"C01:{v['why']}", scenario) for v in verd.values() if not v["ok"]]
     t = execute(dict(scenario["case"], id="replay"))
     verdicts, _, _ = core.validate_traces("Trace_C01", [t])
     v = verdicts["replay"]
